@@ -165,6 +165,7 @@ def schema_open(f, files, extra_decls=None):
         if uri is None:
             continue
         if p == "":
+            s += f' xmlns={quoteattr(uri)}'
             continue
         if f.nested_xmlns and k != f.idx:
             continue
